@@ -151,6 +151,11 @@ func Explore(t *testing.T, sc Scenario, opt Options) Stats {
 		return true
 	}
 
+	if memFull {
+		// nothing can be freed in this process any more: every further scenario is reported as capped, not explored
+		st.Capped = true
+		return st
+	}
 	root := runOnce(t, sc, nil, nil)
 	if !account(root, shard == 0) {
 		return st
@@ -203,9 +208,10 @@ func Explore(t *testing.T, sc Scenario, opt Options) Stats {
 		}
 		if st.Execs%2000 == 0 {
 			runtime.ReadMemStats(&ms)
-			if ms.Sys > 6<<30 {
+			if ms.Sys-ms.HeapReleased > memCeiling() {
 				st.Capped = true
-				vrep.Cap("scenario %s: memory ceiling reached after %d executions (leaked goroutines of abandoned executions)", sc.Name, st.Execs)
+				memFull = true
+				vrep.Cap("scenario %s: memory ceiling of this shard reached after %d executions (goroutines of abandoned executions are never freed); the scenarios after it are not explored at this bound", sc.Name, st.Execs)
 				break
 			}
 		}
@@ -214,6 +220,37 @@ func Explore(t *testing.T, sc Scenario, opt Options) Stats {
 		st.BoundCompleted = opt.Bound
 	}
 	return st
+}
+
+var memFull bool
+
+// memCeiling is the resident size at which a shard stops exploring: the shards of one check that run side
+// by side must together stay below the machine's memory (the goroutines of abandoned
+// executions are never freed). At most 6 GiB, at least 1 GiB.
+func memCeiling() uint64 {
+	ceil := uint64(6 << 30)
+	// the number of shard processes that run at the same time (VERIF_PAR, set by the driver)
+	shards := vrep.EnvInt("VERIF_PAR", 1)
+	if _, n := vrep.Shard(); n < shards {
+		shards = n
+	}
+	if b, err := os.ReadFile("/proc/meminfo"); err == nil {
+		for _, l := range strings.Split(string(b), "\n") {
+			var kb uint64
+			if n, _ := fmt.Sscanf(l, "MemTotal: %d kB", &kb); n == 1 && kb > 0 {
+				if shards < 1 {
+					shards = 1
+				}
+				if c := kb * 1024 / 2 / uint64(shards); c < ceil {
+					ceil = c
+				}
+			}
+		}
+	}
+	if ceil < 1<<30 {
+		ceil = 1 << 30
+	}
+	return ceil
 }
 
 func sameSigs(a, b []Finding) bool {
